@@ -311,7 +311,16 @@ func (l *SimLN) Pay(n *Node, fn, payreq, scid string, maxCLTV uint32) (string, e
 		w.Sim.After(lat, "ln", fmt.Sprintf("resolve#%d", idx), func() { l.resolve(p) })
 	}
 	// block until resolved or released
-	p.Wake.Wait("ln.paywait")
+	if n.Flavor == "cln" {
+		// glightning's RPC timeout (clightning.go: SetTimeout(40)): waitsendpay
+		// gives up after 40s although the HTLC is still in flight.
+		if !p.Wake.WaitTimeout("ln.paywait", 40*time.Second) {
+			w.Probe("ln:cln-rpc-timeout-while-pending")
+			return finish("", errors.New("rpc timeout waiting for waitsendpay"))
+		}
+	} else {
+		p.Wake.Wait("ln.paywait")
+	}
 	if !p.Done.Fired() {
 		return finish("", errors.New(p.CallerErr))
 	}
